@@ -296,6 +296,9 @@ def _catalogue():
     # D11u with-items task behind an upstream task (rerun of the upstream task must run the items again)
     add("D11u", {"t1": T([("ok", [], ["w"])]), "w": T([("ok", ["out"], ["z"])], items=3, conc=2), "z": T()},
         inputs={"xs": [10, 11, 12]}, input_decl=["xs"], output=["out"])
+    # D26 an action that may report pending beside a with-items task with more items than its concurrency
+    add("D26", {"s": T([("any", [], ["a", "w"])]), "a": T([("ok", [], ["d"])]), "w": T(items=3, conc=1), "d": T()},
+        inputs={"xs": [10, 11, 12]}, input_decl=["xs"])
     # D06p split routes with publishes
     add("D06p", {"s": T([("any", ["x"], ["a", "b"])]), "a": T([("any", ["y"], ["m"])]),
                  "b": T([("any", ["x"], ["m"])]), "m": T([("any", ["w"], ["n"])]), "n": T()},
